@@ -150,6 +150,7 @@ type simConn struct {
 	policy  []wpol
 	closed  bool
 	release *wpol // outcome the script opened the write gate with
+	atGate  bool  // a Write waits at the gate
 }
 
 func newSimConn(id int, log *eventLog) *simConn {
@@ -168,8 +169,10 @@ func (c *simConn) feed(cs ...chunk) {
 // openGate lets a Write that is blocked at a gate go on with the given outcome.
 func (c *simConn) openGate(o wpol) {
 	c.mu.Lock()
-	c.release = &o
-	c.cond.Broadcast()
+	if c.atGate { // nothing waits at a gate: the script's release is void, as in the model
+		c.release = &o
+		c.cond.Broadcast()
+	}
 	c.mu.Unlock()
 }
 
@@ -237,7 +240,9 @@ func (c *simConn) Write(p []byte) (int, error) {
 			}
 			break
 		}
+		c.atGate = true
 		c.cond.Wait()
+		c.atGate = false
 		if c.closed {
 			return 0, net.ErrClosed
 		}
